@@ -631,6 +631,48 @@ func c02Body(d c02Desc, tier string) func() {
 			if len(replies) != len(want) {
 				fail("%d replies for %d calls", len(replies), len(want))
 			}
+		case "rxcancel":
+			// three replies arrive in one segment; the second receive runs under a context that is already over.
+			// Where one message ends and the next begins does not depend on that: the third receive yields a whole
+			// message (the second or the third one), never a piece or two glued together.
+			stream, want := c02Messages(d.Seq, "reply")
+			peer, mine := vnet.Pipe("u")
+			conn := varlink.VerifNewConnection(mine)
+			vsched.GoDaemon("P", func() {
+				p := &rawPeer{c: peer}
+				if _, ok := p.readFrame(); !ok {
+					return
+				}
+				peer.Write([]byte(stream))
+			})
+			recv, err := conn.Send(live, "a.b.M", nil, varlink.More)
+			if err != nil {
+				fail("Send: %v", err)
+				break
+			}
+			type rep struct {
+				ID string `json:"id"`
+				P  string `json:"p"`
+			}
+			var r0, r1, r2 rep
+			if _, err := recv(live, &r0); err != nil || r0.ID != "m0" {
+				fail("first receive: %v %+v", err, r0.ID)
+				break
+			}
+			dead := vnet.NewCtx("dead")
+			if d.Cuts != nil {
+				dead = vnet.NewCtxDeadline("dead")
+				dead.Expire()
+			} else {
+				dead.Cancel()
+			}
+			_, err1 := recv(dead, &r1)
+			_, err2 := recv(live, &r2)
+			st.cases++
+			okID := r2.ID == "m2" || (r2.ID == "m1" && (err1 != nil || r1.ID == ""))
+			if err2 != nil || !okID {
+				fail("client, replies %v in one segment: receive under a finished context returned (%q, %v), the next receive under a live context returned (%q, %d bytes, %v) instead of a whole following message", want, r1.ID, err1, r2.ID, len(r2.P), err2)
+			}
 		case "rxclient":
 			stream, want := c02Messages(d.Seq, "reply")
 			peer, mine := vnet.Pipe("u")
@@ -806,6 +848,12 @@ func scenariosC02(tier string) []Scen {
 	for _, stall := range []string{"stalled", "free"} {
 		for _, cause := range []string{"cancel", "deadline"} {
 			d := c02Desc{Kind: "emitfail", Seq: []string{stall, cause}}
+			out = append(out, Scen{Desc: d, Bound: 2, Body: c02Body(d, tier), Check: c02Check, Obs: c02Obs, Cases: c02Cases})
+		}
+	}
+	for _, seq := range [][]string{{"60", "60", "60"}, {"60", "200", "60"}, {"100", "60", "300"}} { // all three fit the reader's buffer: none is cut by the interruption
+		for _, cuts := range [][]int{nil, {0}} {
+			d := c02Desc{Kind: "rxcancel", Seq: seq, Cuts: cuts}
 			out = append(out, Scen{Desc: d, Bound: 2, Body: c02Body(d, tier), Check: c02Check, Obs: c02Obs, Cases: c02Cases})
 		}
 	}
